@@ -43,6 +43,11 @@ package main
 //@   calls f#1: set ferr = $r
 //@   calls Client.RequestAndDecodeContext#1: set rerr = $r
 //@   at loop 1 exit: assert len(page.Items) == 0 && !gettingExactTimestamp
+//@   # exact-timestamp mode (paging through the collections that share one
+//@   # modification time) is left for newer collections only after an empty page
+//@   # (or, which a server obeying the filter never does, a page ending with
+//@   # another modification time) - never while that time is still being delivered
+//@   at assign gettingExactTimestamp#3: assert len(page.Items) == 0 || last.ModifiedAt != filterTime
 //@   loop 1: invariant rerr == nil && ferr == nil
 //@   loop 2: invariant rerr == nil && ferr == nil
 //@   calls f#1: requires !(last.ModifiedAt == $0.ModifiedAt && last.UUID >= $0.UUID)
@@ -91,7 +96,8 @@ package main
 //@   loop 5: invariant roWanted(slots)
 //@   loop 6: invariant 0 <= i && roWanted(slots)
 //@   loop 7: invariant 0 <= i && roWanted(slots)
-//@   loop 8: invariant roWanted(slots)
+//@   # the replication counted for a class starts from zero for that class
+//@   loop 8: invariant roWanted(slots) && ($i == 0 ==> safe == 0)
 //@   loop 9: invariant roWanted(slots)
 //@   loop 10: invariant roWanted(slots) && (forall k int :: 0 <= k && k < $i && slots[k].repl != nil && underreplicated ==> slots[k].want)
 //@   loop 11: invariant roWanted(slots) && (forall k int :: 0 <= k && k < len(slots) && slots[k].repl != nil && underreplicated ==> slots[k].want)
